@@ -844,6 +844,30 @@ func TestVerif_C11_Faults(t *testing.T) {
 				bn = classBases[k%2]
 			}
 			data = files[bn]
+			if cl.Part == "items" {
+				// one case per item of the section: item k = [index[k], index[k+1]) resp. up to the end of the data
+				ix, dt := layouts[bn].parts[cl.Section+"/index"], layouts[bn].parts[cl.Section+"/data"]
+				n := (ix.b - ix.a) / 4
+				for i := 0; i < n; i++ {
+					a := int(binary.BigEndian.Uint32(data[ix.a+4*i:]))
+					b := dt.b
+					if i+1 < n {
+						b = int(binary.BigEndian.Uint32(data[ix.a+4*i+4:]))
+					}
+					if a < dt.a || b > dt.b || b <= a {
+						continue
+					}
+					cl2 := cl
+					cl2.Pos = strings.TrimPrefix(cl.Pos, "each-")
+					if c, ok := c11Concrete(cl2, data, c11Range{a, b}); ok {
+						c.Pos, c.Base = cl.Pos, bn
+						cases = append(cases, c)
+					} else {
+						skipped++
+					}
+				}
+				continue
+			}
 			var ok bool
 			rg, ok = layouts[bn].parts[cl.Section+"/"+cl.Part]
 			if !ok {
